@@ -207,6 +207,28 @@ Definition plain_b (c : pcase) : bool :=
   && is_none (rq_nr (pc_req c))
   && is_ok (build_regmap (pc_cx c)).
 
+(* the class of honest W3C cases the end-to-end theorem C04_w3c_rev covers: any number of correctly issued credentials, of revocable or non-revocable definitions, held
+   under the holder's link secret; non-revocation intervals on the request, its attributes and its predicates; timestamps
+   and non-revocation states as rev_ok_w3c demands (a status list the verifier holds for the named timestamp, inside every
+   interval that applies, the witness valid for it); single attributes and groups, revealed or not; predicates; unused
+   credentials passed along; numbers in the subject within the 32-bit range; restrictions are hypotheses of the theorem *)
+Definition subject_plain (s : list (string * attr_value)) : bool :=
+  forallb (fun '(_, v) => match v with VNum z => in_i32 z | VStr _ => true | VBool _ => false end) s.
+Definition w3c_rev_entry (c : pcase) (p : present) : bool :=
+  cred_honest (pc_cx c) (pc_link c) (pr_cred p) && names_held c p && subject_plain (hc_subject (pr_cred p)) && rev_ok_w3c c p.
+Definition w3c_rev_r (c : pcase) : bool :=
+  coverage c
+  && match pc_self c with [] => true | _ => false end
+  && forallb (w3c_rev_entry c) (nonempty (pc_sel c))
+  && is_ok (build_regmap (pc_cx c)).
+(* ... and, decidably, without restrictions *)
+Definition w3c_rev_b (c : pcase) : bool :=
+  w3c_rev_r c
+  && forallb (fun '(_, ai) => is_none (ai_restr ai)) (rq_attrs (pc_req c))
+  && forallb (fun '(_, pi) => is_none (pi_restr pi)) (rq_preds (pc_req c)).
+(* every selected credential's subject is plain *)
+Definition subjects_plain (c : pcase) : bool := forallb (fun p => subject_plain (hc_subject (pr_cred p))) (nonempty (pc_sel c)).
+
 (* the wider class: revocable credentials, non-revocation intervals at every level (request, attribute,
    predicate), timestamps and non-revocation states supplied as rev_ok_legacy demands; still no
    restrictions and no verifier-side override map *)
